@@ -183,9 +183,32 @@ Theorem C09_reflow_fixed_point : forall maxw input,
 Proof. exact reflow_fixed_point. Qed.
 Print Assumptions C09_reflow_fixed_point.
 
+(* the description clause at component level: the re-flowed lines, joined with newlines as the formatter
+   prints them and the parser's popDescription re-joins them, have the same words and the same paragraph
+   breaks as the input text, for every text and width.  desc_doc is the declarative reading used by
+   doc_of above; paras (BclReflowProofs) is the left-fold form the proof works with *)
+Lemma paragraphs_paras : forall lines d c,
+  pflush (fold_left pstep (map fields lines) (d, c)) = d ++ paragraphs lines c.
+Proof.
+  induction lines as [|l r IH]; intros d c; cbn [map fold_left paragraphs].
+  - unfold pflush. cbn [fst snd]. destruct c; [rewrite app_nil_r|]; reflexivity.
+  - destruct (fields l) as [|w ws] eqn:E.
+    + cbn [pstep]. rewrite IH. unfold pflush. cbn [fst snd]. destruct c; [reflexivity|].
+      rewrite <- app_assoc. reflexivity.
+    + cbn [pstep fst snd]. rewrite IH. reflexivity.
+Qed.
+
+Lemma desc_doc_paras value : desc_doc value = paras (map fields (split_on 10 value)).
+Proof. unfold desc_doc, paras, pstate. rewrite paragraphs_paras. reflexivity. Qed.
+
+Theorem C09_reflow_same_paragraphs : forall maxw input,
+  desc_doc (join_with 10 (reformat_description input maxw)) = desc_doc input.
+Proof. intros. rewrite !desc_doc_paras. apply reflow_paras. Qed.
+Print Assumptions C09_reflow_same_paragraphs.
+
 (* PARTIAL: C09_full_statement itself is not proved.  Missing: the lines of description blocks and the
    concatenation of the rendered lines into one file whose tokens are the canonical stream (so that
-   C09_line_relex and C09_walk_back compose), preservation of description paragraphs by the re-flow,
+   C09_line_relex and C09_walk_back compose),
    and that rendering is a normal form on its own image (idempotence of the whole formatter; the
    description re-flow part is C09_reflow_fixed_point).  Those clauses are evaluated on every run by the direct
    oracle (re-parse, document comparison, format twice) and the byte-exact correspondence of Fmt. *)
